@@ -4,6 +4,8 @@
 # check that the same case HOLDS on the unchanged tree, and keep it as
 # replays/<property>/seed-<name>.json (replayed in both tiers at every seed).
 cd "$(dirname "$0")/.."
+OUT=${VERIF_OUT:-/tmp/verif-alt-out}; export VERIF_OUT=$OUT
+CASE=/tmp/seedcase-$$.json
 DIRS=${*:-$(ls seeded | grep -v README)}
 for n in $DIRS; do
   d=seeded/$n
@@ -13,15 +15,15 @@ for n in $DIRS; do
   [ -f "$dst" ] && { echo "$n: already kept"; continue; }
   got=""
   for s in 1 2 3 4 5 6; do
-    rm -rf /tmp/verif-alt-out
+    rm -rf $OUT
     tools/seedtest.sh "$d" "$P" quick $s >/dev/null 2>&1
-    f=$(ls /tmp/verif-alt-out/replays/$P/found-*.json 2>/dev/null | head -1)
+    f=$(ls $OUT/replays/$P/found-*.json 2>/dev/null | head -1)
     [ -n "$f" ] && { got=$f; break; }
   done
   [ -z "$got" ] && { echo "$n: no case found at seeds 1-6"; continue; }
-  cp "$got" /tmp/seedcase.json
-  if ./check "$P" --replay /tmp/seedcase.json 2>&1 | grep -q "holds on this case"; then
-    mkdir -p replays/$P; cp /tmp/seedcase.json "$dst"; echo "$n: kept $dst (seed $s)"
+  cp "$got" $CASE
+  if ./check "$P" --replay $CASE 2>&1 | grep -q "holds on this case"; then
+    mkdir -p replays/$P; cp $CASE "$dst"; echo "$n: kept $dst (seed $s)"
   else
     echo "$n: the found case does not hold on the unchanged tree (not kept)"
   fi
